@@ -249,7 +249,7 @@ mod vk_iter {
         }
     }
 
-    // @harness name=iter_buffered group=default,nodebug props_nodebug=C17 props=C01,C02,C03,C07,C09 kind=bounded bound="chunk size == 2; fruitless polls <= 2"
+    // @harness name=iter_buffered group=default,nodebug props_nodebug=C17 props=C01,C02,C03,C04,C05,C06,C07,C09,C11 kind=bounded bound="chunk size == 2; fruitless polls <= 2"
     #[kani::proof]
     #[kani::unwind(18)]
     #[kani::stub(std::sync::atomic::Atomic::<usize>::fetch_add, a_faa)]
@@ -344,7 +344,7 @@ mod vk_iter {
         while i < LOGN { if i < s.n { assert!(s.log[i].loc != 9, "[C06 C05 C07 iter-end-untouched] a pull that starts after `completed` was set does not use the wrapped iterator"); } i += 1; }
     }
 
-    // @harness name=iter_len props=C11 kind=bounded bound="all values read symbolic; exact, inexact and unbounded size hints"
+    // @harness name=iter_len props=C11,C07 kind=bounded bound="all values read symbolic; exact, inexact and unbounded size hints"
     #[kani::proof]
     #[kani::unwind(18)]
     #[kani::stub(std::sync::atomic::Atomic::<usize>::fetch_add, a_faa)]
@@ -355,13 +355,15 @@ mod vk_iter {
     fn iter_len() {
         let (it, k, len) = mk_honest();
         locs(&it);
-        let r = it.try_get_len();
+        let which: bool = kani::any();
+        let r = if which { it.try_get_len() } else { match it.has_more() { crate::HasMore::No => Some(0), crate::HasMore::Yes(x) => { assert!(x > 0, "[C11 iter-more-yes] Yes(k) only with k > 0"); Some(x) } crate::HasMore::Maybe => None } };
         let s = st();
         let mut flag = false; let mut c = 0usize; let mut have_c = false;
         let mut i = 0;
         while i < LOGN {
             if i < s.n {
                 let e = s.log[i];
+                assert!(e.loc != 9, "[C07 C11 iter-len-untouched] try_get_len / has_more never touch the wrapped iterator (a &self query runs concurrently with the ticket holder's next())");
                 assert!(e.kind == 2 || e.kind == 5, "[C11 iter-len-frame] try_get_len only reads");
                 if e.kind == 5 && e.ret == 1 { flag = true; }
                 if e.kind == 2 && e.loc == 1 { c = e.ret; have_c = true; }
